@@ -91,6 +91,15 @@ class Gen:
             r.shuffle(ids)
         if r.random() < 0.15:
             ids = [r.choice(["atom", "a b", "Q", "x_1", "q"]) + str(i) for i in range(n)]
+        elif r.random() < 0.06:
+            ids[r.randrange(n)] = ""  # the empty string is a valid (falsy) qubit id
+        elif rk != "mappable" and r.random() < 0.3:
+            # integer ids, as Register.square / from_coordinates produce them (0 is a
+            # valid, falsy id); the abstract representation stringifies them in the
+            # register only, which the comparison allows for
+            ids = list(range(n))
+            if r.random() < 0.3:
+                r.shuffle(ids)
         reg: dict
         qubits = None
         if rk in ("layout", "mappable"):
@@ -381,13 +390,14 @@ class Gen:
                         w = {q: r.choice([0.0, 0.25, 0.5, 1.0]) for q in qids}
                         if sum(w.values()) == 0:
                             w[qids[0]] = 1.0
+                        w = [[q, x] for q, x in w.items()]
                     case["maps"].append(w)
             cmaps = []
             for m in case["maps"]:
                 if reg["kind"] == "mappable":
                     cmaps.append(creg.layout.define_detuning_map({int(t): x for t, x in m.items()}))
                 else:
-                    cmaps.append(creg.define_detuning_map(dict(m)))
+                    cmaps.append(creg.define_detuning_map({q: x for q, x in m}))
 
             names_pool = ["ch0", "ch1", "ch2", "ch3", "a", "b", "my channel"]
             tries = 0
@@ -428,7 +438,7 @@ class Gen:
         case["assignments"] = asgs if self.vars else [{}]
         case["ser"] = dict(
             defaults=bool(self.vars or qubits) and r.random() < 0.4,
-            seq_name=r.choice(["pulser-exported", "my seq"]),
+            seq_name=r.choice(["pulser-exported", "my seq", ""]),
         )
         return case
 
@@ -531,7 +541,8 @@ class Gen:
         if kind == "add":
             return dict(op="add", pulse=self.pulse(ch), channel=name, protocol=r.choice([None, None, None] + PROTOCOLS), style=r.choice(STYLES))
         if kind == "delay":
-            return dict(op="delay", duration=self.duration(ch), channel=name, at_rest=r.choice([None, None, True, False]), style=r.choice(STYLES))
+            du = 0 if r.random() < 0.08 else self.duration(ch)
+            return dict(op="delay", duration=du, channel=name, at_rest=r.choice([None, None, True, False]), style=r.choice(STYLES))
         if kind == "target":
             if not local:
                 return None
